@@ -117,6 +117,34 @@ type replayInput struct {
 	Name string `json:"name"`
 	Type string `json:"type"`
 	Go   string `json:"go"` // Go expression building the value
+	Ptr  bool   `json:"ptr,omitempty"`
+}
+
+type structField struct {
+	name string
+	val  Val
+}
+
+// structFields lists the scalar and string fields of the struct a pointer parameter points to, read from the entry heap.
+func (r *Report) structFields(c *FnCtx, p VPtr) ([]structField, bool) {
+	st, ok := p.T.Underlying().(*types.Struct)
+	if !ok || p.Root != rootObj || len(p.Path) != 0 {
+		return nil, false
+	}
+	var out []structField
+	for i := 0; i < st.NumFields(); i++ {
+		f := st.Field(i)
+		switch u := f.Type().Underlying().(type) {
+		case *types.Basic:
+			if u.Info()&(types.IsInteger|types.IsBoolean|types.IsString) == 0 {
+				continue
+			}
+			np := p
+			np.Path = []int{i}
+			out = append(out, structField{f.Name(), c.loadQuiet(c.entry, np)})
+		}
+	}
+	return out, true
 }
 
 // buildInputs turns the model of the entry state into Go expressions.
@@ -168,6 +196,21 @@ func (r *Report) buildInputsWith(ob *Obligation, base []string) ([]replayInput, 
 			hasReader = true
 		case VStruct:
 			continue // struct parameters are replayed as their zero value
+		case VPtr:
+			fields, ok := r.structFields(c, v)
+			if !ok {
+				return nil, nil, "", false
+			}
+			for _, f := range fields {
+				switch fv := f.val.(type) {
+				case VInt:
+					terms = append(terms, fv.T)
+				case VBool:
+					terms = append(terms, fv.T)
+				case VStr:
+					terms = append(terms, fv.Len, fv.Off)
+				}
+			}
 		default:
 			return nil, nil, "", false
 		}
@@ -236,6 +279,19 @@ func (r *Report) buildInputsWith(ob *Obligation, base []string) ([]replayInput, 
 			m := c.heapGet(c.entry, "E$uint8", mapSort(2, sInt))
 			for k := 0; k < n; k++ {
 				cterms = append(cterms, sel(sel(m, v.Base), plus(v.Off, fmt.Sprint(k))))
+			}
+		case VPtr:
+			fields, _ := r.structFields(c, v)
+			for _, f := range fields {
+				if fv, ok := f.val.(VStr); ok {
+					n, _ := strconv.Atoi(vals[fv.Len])
+					if n > maxLen {
+						return nil, nil, "", false
+					}
+					for k := 0; k < n; k++ {
+						cterms = append(cterms, strAt(fv, fmt.Sprint(k)))
+					}
+				}
 			}
 		}
 	}
@@ -307,6 +363,27 @@ func (r *Report) buildInputsWith(ob *Obligation, base []string) ([]replayInput, 
 			in.Go = fmt.Sprintf("append(make([]byte, 0, %d), []byte{%s}...)", cp, strings.Join(elems, ","))
 		case VStruct:
 			in.Go = ts + "{}"
+		case VPtr:
+			fields, _ := r.structFields(c, v)
+			var parts []string
+			for _, f := range fields {
+				switch fv := f.val.(type) {
+				case VInt:
+					parts = append(parts, fmt.Sprintf("%s: %s", f.name, vals[fv.T]))
+				case VBool:
+					parts = append(parts, fmt.Sprintf("%s: %s", f.name, vals[fv.T]))
+				case VStr:
+					n, _ := strconv.Atoi(vals[fv.Len])
+					bs := make([]byte, n)
+					for k := 0; k < n; k++ {
+						x, _ := strconv.Atoi(vals[strAt(fv, fmt.Sprint(k))])
+						bs[k] = byte(x)
+					}
+					parts = append(parts, fmt.Sprintf("%s: %s", f.name, strconv.Quote(string(bs))))
+				}
+			}
+			in.Go = "&" + strings.TrimPrefix(ts, "*") + "{" + strings.Join(parts, ", ") + "}"
+			in.Ptr = true
 		case VIface:
 			// scripted reader from the modelled Read calls on the model's path
 			imports["io"] = "io"
@@ -436,6 +513,10 @@ func (r *Report) replayTest(ob *Obligation, ins []replayInput, imports map[strin
 	var names []string
 	for _, in := range ins {
 		fmt.Fprintf(&b, "\t%s := %s\n\t_ = %s\n", in.Name, in.Go, in.Name)
+		if in.Ptr {
+			// entry value of the pointed-to struct, for oracles
+			fmt.Fprintf(&b, "\t%s_old := *%s\n\t_ = %s_old\n", in.Name, in.Name, in.Name)
+		}
 		names = append(names, in.Name)
 	}
 	call := ""
